@@ -160,7 +160,7 @@ class BodyMixin:
                 return None
             try:
                 return json_mod.loads(b)
-            except ValueError:
+            except (ValueError, RecursionError):   # RecursionError: nested deeper than the interpreter allows
                 self._raise(BodyParsingError('Invalid JSON body'), RequestError)
         return None
 
